@@ -1,7 +1,7 @@
 (* C07, part 4: the undefined-variable diagnostics (types 2 and 3).
    The third pass of Model/Usage.v (findNameStr / findGlobalVar on every read the traversal binds to no local) reports
    exactly the list the reference `spec_undefined` of Spec/LuaUsage.v demands, under the boolean guards in_fragment,
-   classA_ok, pos_clean, flags_ok (reads at the same Loc carry the same idiom flags) and not later_elsewhere. *)
+   pos_clean, flags_ok (reads at the same Loc carry the same idiom flags) and not later_elsewhere. *)
 From Coq Require Import List NArith ZArith Bool Lia.
 From LH Require Import Base.Bytes Model.Lexer Model.Ast Spec.LuaUsage Model.Usage Proofs.TraverseBindDefs
   Proofs.UsageBindRun Proofs.UsageBindSim Proofs.UsageBind.
@@ -131,14 +131,14 @@ Definition flags_ok (b : block) : bool :=
   forallb (flag_ok (fun l => loc_mem l (supp_locs b)) (fun l => loc_mem l (circ_locs b))) (trace b).
 
 Theorem usage_undefined_agree c b all others :
-  in_fragment b = true -> classA_ok b = true -> pos_clean b = true -> flags_ok b = true ->
+  in_fragment b = true -> pos_clean b = true -> flags_ok b = true ->
   later_elsewhere c b others = false ->
   (forall n, name_mem n all = name_mem n (gnames (s1_gmap (first_pass c b))) || name_mem n others) ->
   s3_diags (run3 true c (s1_gmap (first_pass c b)) all (trace b))
   = spec_undefined c others (fun l => loc_mem l (supp_locs b)) (circ_ok b (s1_gmap (first_pass c b))) b.
 Proof.
-  intros Hf Ha Hp Hfl Hle Hall.
-  pose proof (usage_bindings_agree c b Hf Ha Hp) as Hlog.
+  intros Hf Hp Hfl Hle Hall.
+  pose proof (usage_bindings_agree c b Hf Hp) as Hlog.
   unfold first_pass, run1 in Hlog. destruct (run1_fold c (trace b) (mkSt1 [] [] [] [])) as [_ Hl].
   rewrite Hl in Hlog. cbn [s1_log s1_stack app] in Hlog.
   set (own := s1_gmap (first_pass c b)) in *.
